@@ -181,7 +181,9 @@ impl Dictionary for MutableDictionary {
                     None
                 }
             })
-            .sorted_unstable_by_key(|a| a.1)
+            // Break ties on the word itself: the candidates arrive in hash-map order,
+            // which differs between dictionaries, processes and runs.
+            .sorted_unstable_by_key(|a| (a.1, a.0))
             .take(max_results)
             .map(|(word, edit_distance)| FuzzyMatchResult {
                 word,
